@@ -215,6 +215,17 @@ def string_forms_oracle(rng):
                     ok = is_mask(getattr(d, g), nn, eq) if g == f else is_mask(getattr(d, g), True, False)
                     if not ok:
                         fails.append({"detail": f"{cls.__name__}({f}=(network {nn}, equation parameters {eq}), params=...) gives {g} = {getattr(d, g)}", "case": {"what": "strings"}})
+        # the same strings on the parameters of a system (ParamsDict): network parameters as a whole, every equation parameter
+        from jinns.parameters import ParamsDict
+        PD = ParamsDict(nn_params={"u": {"w": jnp.ones(2)}, "v": {"w": jnp.ones(3)}}, eq_params={"a": jnp.array(1.0), "b": jnp.array(2.0)})
+        for f in fields:
+            for sname, (nn, eq) in want.items():
+                dk = cls.from_str(PD, **{f: sname})
+                for g in fields:
+                    wnn, weq = (nn, eq) if g == f else (True, False)
+                    m = getattr(dk, g)
+                    if set(jax.tree_util.tree_leaves(m.nn_params)) != {wnn} or m.eq_params != {"a": weq, "b": weq}:
+                        fails.append({"detail": f"{cls.__name__}.from_str(<system parameters>, {f}={sname!r}) gives {g} = {m}", "case": {"what": "strings"}})
         try:
             cls.from_str(P, dyn_loss="everything")
             fails.append({"detail": f"{cls.__name__}.from_str accepts an unknown string", "case": {"what": "strings"}})
